@@ -1,6 +1,6 @@
 (** C09 property theorems: for every table of call functions [body] (call #i's function performs the
     timer operations [body i]: callLater / cancel / reset / delay / getDelayedCalls, on any calls, itself
-    included, and may end by raising an exception), every history [ops] of such operations and advances from the fresh Clock, every fuel.
+    included, re-entrant clock.advance(a) from inside the function, and may end by raising an exception), every history [ops] of such operations and advances from the fresh Clock, every fuel.
     The log is kept newest first.  Times are integers (dyadic rationals scaled by 2^k). *)
 From Coq Require Import List Arith ZArith Bool Permutation Sorted.
 From TwLib Require Import TimersCall.
@@ -42,6 +42,17 @@ Theorem advance_runs_every_due_call : forall body fuel s a,
 Proof. exact advance_done. Qed.
 Print Assumptions advance_runs_every_due_call.
 
+(** the same for a re-entrant advance called by a running call function ([loop body f] is the loop of
+    Clock.advance): when it returns, nothing due is pending.  Together with the previous theorem, which reads
+    the clock at the end of the OUTER advance (the loop condition re-reads seconds() at every iteration), a call
+    that a function schedules or moves into the window opened by its own nested advance still runs before the
+    outer advance returns. *)
+Theorem nested_advance_runs_every_due_call : forall body f a s,
+  let s' := nested (loop body f) a s in
+  oof s' = false -> raised_now s' = false -> Forall (fun c => now s' < getTime c) (calls s').
+Proof. exact nested_done. Qed.
+Print Assumptions nested_advance_runs_every_due_call.
+
 (** when a call runs, no other pending call is scheduled earlier (holds for negative delays too) *)
 Theorem no_pending_earlier_when_running : forall body fuel ops c n others,
   In (ERun c n others) (log (run body fuel init ops)) -> Forall (fun o => getTime c <= getTime o) others.
@@ -51,7 +62,7 @@ Print Assumptions no_pending_earlier_when_running.
 (** calls run in nondecreasing scheduled time over the whole history, when delays, reset/delay
     arguments and advances are non-negative (a negative delay() can move a call before one that
     already ran; see design.d/C09.md) *)
-Theorem nondecreasing_scheduled_time : forall body, (forall i, Forall nonneg_bop (body i)) ->
+Theorem nondecreasing_scheduled_time : forall body, (forall i, Forall nonneg_cop (body i)) ->
   forall fuel ops, Forall nonneg_op ops ->
   StronglySorted Z.ge (run_times (log (run body fuel init ops))).
 Proof. exact reach_nondecreasing. Qed.
